@@ -1,11 +1,11 @@
 (** C02 — section, list and rule structure follows the nesting model
-    (model: Model/Nest.v; proofs: Proofs/NestProofs.v).
-    PARTIAL: the theorem covers headings, horizontal rules and content blocks
-    for every document; the list-nesting clause is decided per run by the
-    reference in harness/c02.py against the real parser (no list theorem yet). *)
+    (models: Model/Nest.v, Model/Lists.v; proofs: Proofs/NestProofs.v, Proofs/ListsProofs.v).
+    Sections/rules/content and blocks of list lines are separate theorems;
+    their interleaving (a content block closes the open lists, a heading closes
+    everything) is decided per run against the real parser. *)
 From Coq Require Import List Arith.
 Import ListNotations.
-From WTP Require Import Model.Nest Proofs.NestProofs.
+From WTP Require Import Model.Nest Proofs.NestProofs Model.Lists Proofs.ListsProofs.
 
 (* For EVERY sequence of headings (level >= 1), content blocks and horizontal
    rules, the left-to-right stack machine (pop while the open section's level
@@ -14,7 +14,36 @@ From WTP Require Import Model.Nest Proofs.NestProofs.
    contains everything up to the next heading of the same or a lower level,
    and a rule stays inside sections of level <= 2 only. *)
 Theorem c02_sections_follow_nesting_model :
-  forall d, Forall blk_ok d -> parse d = spec d.
-Proof. exact parse_spec. Qed.
+  forall d, Forall blk_ok d -> Nest.parse d = Nest.spec d.
+Proof. exact NestProofs.parse_spec. Qed.
 Print Assumptions c02_sections_follow_nesting_model.
 
+
+
+(* For EVERY block of list lines (any markers, any number of lines), the machine that has the shape of
+   list_fn + pop_until_nth_list on the parser stack (pop until an open item with the same marker - then
+   continue its list - or an open item whose marker the new one properly extends - then nest a new list in
+   it - or the enclosing section - then start a new list) builds exactly the forest of the declarative model:
+   an item takes the lists that follow it while their marker properly extends its own, then continues the
+   following list if it has the same marker, otherwise starts its own list. *)
+Theorem c02_lists_follow_nesting_model :
+  forall d, Forall (fun line => fst line <> []) d -> Lists.parse d = Lists.spec d.
+Proof. exact ListsProofs.parse_spec. Qed.
+Print Assumptions c02_lists_follow_nesting_model.
+
+(* On every stack reachable by list lines the depth correction pop_until_nth_list never pops anything
+   (the open items' markers form a chain of proper prefixes, so there are never more open lists than the
+   marker is long). *)
+Theorem c02_depth_correction_is_idle :
+  forall d m, Forall (fun line => fst line <> []) d -> m <> [] ->
+    let st := fold_left Lists.step d ([], []) in
+    pop_until_nth_list m (pop_loop (S (length (fst st))) m st) = pop_loop (S (length (fst st))) m st.
+Proof. exact pop_until_never_pops. Qed.
+Print Assumptions c02_depth_correction_is_idle.
+
+(* non-vacuity: "*", "***", "**", "#", "**" *)
+Example c02_lists_example :
+  Lists.parse [([42],1); ([42;42;42],2); ([42;42],3); ([35],4); ([42;42],5)] =
+  [LL [42] [LI [42] 1 [LL [42;42;42] [LI [42;42;42] 2 []]; LL [42;42] [LI [42;42] 3 []]]];
+   LL [35] [LI [35] 4 []]; LL [42;42] [LI [42;42] 5 []]].
+Proof. vm_compute. reflexivity. Qed.
